@@ -117,7 +117,19 @@ func init() {
 			if c%2 == 1 {
 				o.midRender = []string{"text"}
 			}
-			t := g.buildTable(o)
+			var t string
+			if c%6 == 0 && !d20 {
+				// padding sweep: one wide line per column, next to short, empty and missing ones, so that every
+				// padding length from 1 up to 150 occurs on the left, on the right and split around a centred text
+				t = g.do("newtable")
+				w1, w2 := 1+(c/6)%150, 1+(c/6*7)%150
+				g.do("addheaders " + t + " " + joinC([]string{g.strItem("h"), g.strItem("")}))
+				g.do("addrowitems " + t + " " + joinC([]string{g.strItem(strings.Repeat("x", w1)), g.strItem(g.r.pick([]string{"", "a", "ab"}))}))
+				g.do("addrowitems " + t + " " + joinC([]string{g.strItem(g.r.pick([]string{"", "a", "ab", "世"})), g.strItem(strings.Repeat("-", w2) + "\nz")}))
+				g.do("addrowitems " + t + " " + g.strItem("q"))
+			} else {
+				t = g.buildTable(o)
+			}
 			if sizes || g.r.chance(1, 2) {
 				g.assignProps(t, "align", alignVals)
 			}
@@ -445,7 +457,14 @@ func init() {
 				refs = append(refs, w0)
 			}
 			cur := refs[len(refs)-1]
-			for d := 0; d < r.n(4); d++ {
+			depth := r.n(4)
+			if c%12 == 0 {
+				depth = 8 + r.n(8) // a tower of wrappers
+				if c%24 == 0 {
+					depth = 30 + r.n(12) // each storey registers its measuring callback on the core table
+				}
+			}
+			for d := 0; d < depth; d++ {
 				if cur[0] == 'T' {
 					cur = g.do("wrap " + r.pick(kinds) + " " + cur)
 				} else {
